@@ -32,6 +32,8 @@ KEYWORD = {"MINUTES": "minutes", "HOURS": "hours", "DAYS": "days", "NIGHTS": "da
 
 def check(ctx, rep, tier):
     eng = get_engine(ctx)
+    from . import spellings
+    spellings.check(ctx, rep, "word-spellings", lambda g: g.startswith(("n_", "d_")), floor=2)
     rep.describe("unit-tables", "enum members, unit vocabulary, unit->offset table and the unit "
                  "sets tested by the date+duration rule are the same set; each unit maps to the "
                  "homonymous relative keyword carrying the duration's amount")
